@@ -76,6 +76,13 @@ func init() {
 				col.AddExtra("outside_generator_feature_set", 1)
 				return
 			}
+			if !cs.ForEngine(eng) {
+				col.AddExtra("other_engines_style_of_refusing_a_repeated_key", 1)
+				return
+			}
+			if cs.Late {
+				col.AddExtra("repeated_key_refused_by_the_value_assembler", 1)
+			}
 			fs, n := replay.ReplayTypedAsm(&cs, eng, *secondary)
 			for _, f := range fs {
 				f.Case = idx
@@ -88,8 +95,6 @@ func init() {
 			}
 			col.Case(string(line), n, sample)
 		})
-		col.AddExtra("repeated_key_refused_by_the_value_assembler", int(replay.LateRefusalsAtValue))
-		col.AddExtra("repeated_key_refused_at_finish", int(replay.LateRefusalsAtFinish))
 		col.Print(os.Stdout)
 		return 0
 	})
